@@ -42,5 +42,12 @@ m = {
     "notes": "See DESIGN.md. Every check: regenerate translated models from /repo, rebuild the property's theorems (full .vo), audit Print Assumptions, run correspondence + oracle, write evidence.",
     "not_applicable": na,
 }
+# known findings: fragments known_findings.d/*.json -> known_findings.json (the committed file the checks read)
+kf = []
+for f in sorted((V / "known_findings.d").glob("*.json")):
+    kf.extend(json.loads(f.read_text()))
+(V / "known_findings.json").write_text(json.dumps({
+    "comment": "status=known: a genuine defect of the unchanged tree, printed as KNOWN-FINDING and not counted as a violation when the shrunk failing case matches `signature` (a regex over the check's case signature); status=fixed: repaired by the named 'fix:' commit in /repo, suppresses nothing",
+    "findings": kf}, indent=1) + "\n")
 (V / "MANIFEST.json").write_text(json.dumps(m, indent=1) + "\n")
 print(f"{len(checks)} checks, {len(na)} not claimed")
